@@ -341,17 +341,17 @@ pub extern "C" fn getpid() -> libc::pid_t {
 }
 
 // ---------------------------------------------------------------------------------------------
-// S10 (atomic-granular tier only): futex waits of simulated threads
+// S10: futex waits of simulated threads
 // ---------------------------------------------------------------------------------------------
 //
-// In the instrumented build a simulated thread can be parked at an atomic operation INSIDE a
-// critical section; the next thread to run would then block in the kernel on that lock while it
-// holds the baton.  std's locks, condition variables and thread parking enter the kernel through
+// A simulated thread can be parked at a scheduling point INSIDE a critical section (a lock held
+// across a rayon call; in the instrumented build: at any atomic operation); the next thread to
+// run would then block in the kernel on that lock while it holds the baton - a hang made by the
+// simulator, not by the code.  std's locks, condition variables and thread parking enter the kernel through
 // libc's `syscall(SYS_futex, ..)`, so that symbol is defined here: a futex WAIT of the baton
 // holder on a word that is not one of the simulator's own becomes a scheduling point (the thread
 // yields as "spinning" and returns to its retry loop); everything else goes to the kernel.
 
-#[cfg(feature = "atomic-points")]
 #[inline(always)]
 unsafe fn raw_syscall6(n: libc::c_long, a1: libc::c_long, a2: libc::c_long, a3: libc::c_long, a4: libc::c_long, a5: libc::c_long, a6: libc::c_long) -> libc::c_long {
     let ret: libc::c_long;
@@ -359,14 +359,12 @@ unsafe fn raw_syscall6(n: libc::c_long, a1: libc::c_long, a2: libc::c_long, a3: 
     ret
 }
 
-#[cfg(feature = "atomic-points")]
 pub static FUTEX_YIELDS: AtomicU64 = AtomicU64::new(0);
 
-/// Interposes libc's `syscall` (atomic-granular build only).
+/// Interposes libc's `syscall`.
 ///
 /// # Safety
 /// The arguments must be valid for the requested system call (the libc contract).
-#[cfg(feature = "atomic-points")]
 #[no_mangle]
 pub unsafe extern "C" fn syscall(n: libc::c_long, a1: libc::c_long, a2: libc::c_long, a3: libc::c_long, a4: libc::c_long, a5: libc::c_long, a6: libc::c_long) -> libc::c_long {
     if n == libc::SYS_futex {
